@@ -60,6 +60,8 @@ type unit struct {
 	envVars map[string]bool
 	// functions whose body is `return <expression without guards>` are also emitted as plain values <name>_val
 	valueFns bool
+	// package variables of function type whose calls are the Section variables env_<name> (applied to the arguments)
+	envFuncs map[string]bool
 }
 
 type stub struct {
@@ -93,6 +95,13 @@ var units = []unit{
 		only: []string{"WriteHeader", "Write", "maybeWriteHeader", "Status", "BytesWritten"},
 		imports: "Base.GoEff Base.GoExt", section: "Variable ans : nat -> oval.",
 		stateStructs: []string{"basicWriter"}, opaque: map[string][]string{"basicWriter": {"ResponseWriter", "tee"}}},
+	{out: "LevelSrc", pkgDir: ".", files: []string{"log.go"}, only: []string{"String", "ParseLevel"},
+		imports: "Base.GoEff",
+		section: "Variable env_LevelTraceValue env_LevelDebugValue env_LevelInfoValue env_LevelWarnValue env_LevelErrorValue env_LevelFatalValue env_LevelPanicValue : list N.\nVariable env_LevelFieldMarshalFunc : Z -> list N.",
+		envVars: map[string]bool{"LevelTraceValue": true, "LevelDebugValue": true, "LevelInfoValue": true, "LevelWarnValue": true,
+			"LevelErrorValue": true, "LevelFatalValue": true, "LevelPanicValue": true},
+		envFuncs: map[string]bool{"LevelFieldMarshalFunc": true},
+		externs:  map[string]bool{"strconv.Itoa": true, "strings.EqualFold": true, "strconv.Atoi": true, "errorf-value": true}},
 	{out: "WriterSrc", pkgDir: ".", files: []string{"writer.go"}, only: []string{"Write", "WriteLevel"},
 		imports: "Base.GoEff Base.GoExt", section: "Variable ans : nat -> oval.",
 		stateStructs: []string{"multiLevelWriter", "FilteredLevelWriter", "LevelWriterAdapter"},
@@ -959,6 +968,10 @@ func (p *pkgCtx) translateFunc(obj *types.Func) (txt string, nloops int, err err
 				fail("unnamed state receiver")
 			}
 			params = append(params, fmt.Sprintf("(%s : %s_st)", f.nameOf(f.self), f.selfT))
+		} else if _, isBasic := rt.Underlying().(*types.Basic); isBasic && len(fd.Recv.List) == 1 && len(fd.Recv.List[0].Names) == 1 {
+			// a value receiver of a scalar named type (Level): an ordinary first parameter
+			rv := p.info.Defs[fd.Recv.List[0].Names[0]]
+			params = append(params, fmt.Sprintf("(%s : %s)", f.nameOf(rv), coqType(rt)))
 		} else if st, ok := rt.Underlying().(*types.Struct); !ok || st.NumFields() != 0 {
 			fail("receiver %s is not an empty struct", rt)
 		}
@@ -2718,6 +2731,9 @@ func (f *fnCtx) expr(e ast.Expr) string {
 				if g, ok := f.p.globals[o]; ok {
 					return g
 				}
+				if f.p.u.envVars[e.Name] && (isString(o.Type()) || isBool(o.Type())) {
+					return "env_" + e.Name // the current value of the package variable is a parameter
+				}
 				fail("package variable %s", e.Name)
 			}
 			if o.Pkg() != f.p.pkg {
@@ -3065,6 +3081,16 @@ func (f *fnCtx) call(e *ast.CallExpr) string {
 			return f.builtin(id.Name, e)
 		}
 	}
+	if id, ok := e.Fun.(*ast.Ident); ok && f.p.u.envFuncs[id.Name] {
+		if v, isVar := f.p.info.Uses[id].(*types.Var); isVar && v.Parent() == f.p.pkg.Scope() {
+			// a call of a function-typed package variable: the installed function is a parameter (assumed pure and total)
+			var as []string
+			for _, a := range e.Args {
+				as = append(as, paren(f.expr(a)))
+			}
+			return paren("env_" + id.Name + " " + strings.Join(as, " "))
+		}
+	}
 	if id, ok := e.Fun.(*ast.Ident); ok && len(e.Args) == 0 {
 		if v, isVar := f.p.info.Uses[id].(*types.Var); isVar && v.Parent() == f.p.pkg.Scope() && f.p.u.clockVars[id.Name] {
 			// TimestampFunc(): the clock reading is an oracle parameter; one reading per function
@@ -3355,6 +3381,27 @@ func (f *fnCtx) extern(fn *types.Func, e *ast.CallExpr) string {
 		}
 	case "(time.Duration).Nanoseconds":
 		return paren(f.expr(e.Fun.(*ast.SelectorExpr).X))
+	case "strings.EqualFold":
+		if f.p.u.externs["strings.EqualFold"] {
+			return fmt.Sprintf("strings_EqualFold %s %s", arg(0), arg(1))
+		}
+	case "strconv.Atoi":
+		if f.p.u.externs["strconv.Atoi"] {
+			return "strconv_Atoi " + arg(0)
+		}
+	case "fmt.Errorf":
+		if f.p.u.externs["errorf-value"] {
+			tv := f.p.info.Types[e.Args[0]]
+			if tv.Value == nil || tv.Value.Kind() != constant.String {
+				fail("fmt.Errorf with a non-constant format")
+			}
+			for _, a := range e.Args[1:] {
+				if !f.simpleArg(a) {
+					fail("fmt.Errorf argument that is not a variable, constant or len(variable)")
+				}
+			}
+			return "Some (ErrFmt " + bytesLit(constant.StringVal(tv.Value)) + ")"
+		}
 	case "strconv.Itoa":
 		if f.p.u.externs["strconv.Itoa"] {
 			return "strconv_AppendInt [] " + arg(0)
